@@ -14,15 +14,15 @@ TRUST = ('TLC 1.8 and the TLA+ modules under /verif/spec (checked against declar
 
 TABLE = {
     'C01': ('model checking + trace validation of lane facts',
-            'IntLane.tla arithmetic is model-checked against (a op b) mod 2^W on all 8-bit pairs (thorough) / lattices; every lane result of + - * unary- ++ -- and compound forms (also self-aliased: x op= x) recorded from the real code in each build configuration is judged by TLC (8-bit pairs exhaustively, 16/32/64-bit lattice^2 + complements + multiples + random).', '7 C01'),
+            'IntLane.tla arithmetic is model-checked against (a op b) mod 2^W on all 8-bit pairs (thorough) / lattices; every lane result of + - * unary- ++ -- and compound forms (also self-aliased: x op= x) recorded from the real code in each build configuration is judged by TLC (8-bit pairs exhaustively, 16/32/64-bit lattice^2 + complements + multiples + random). The register programs of the composed machine (Avel.tla, validated by TraceAvel.tla) are run as well; this check gives a verdict on the steps this property owns.', '7 C01'),
     'C02': ('model checking + trace validation of lane facts',
-            'Comparison semantics (signed/unsigned/IEEE) model-checked for trichotomy and against native integers; every lane of every ==,!=,<,<=,>,>= result (observed through extract<I>) is judged by TLC in every configuration.', '7 C02'),
+            'Comparison semantics (signed/unsigned/IEEE) model-checked for trichotomy and against native integers; every lane of every ==,!=,<,<=,>,>= result (observed through extract<I>) is judged by TLC in every configuration. The register programs of the composed machine (Avel.tla, validated by TraceAvel.tla) are run as well; this check gives a verdict on the steps this property owns.', '7 C02'),
     'C04': ('model checking + trace validation of lane facts',
-            'Bitwise ops, shifts 0..W in three call forms and rotations by any amount: byte-limb semantics model-checked against multiply/divide by 2^s; recorded lane results judged by TLC for every amount and every compile-time S; per-lane amount vectors all different, uniform and periodic.', '7 C04'),
+            'Bitwise ops, shifts 0..W in three call forms and rotations by any amount: byte-limb semantics model-checked against multiply/divide by 2^s; recorded lane results judged by TLC for every amount and every compile-time S; per-lane amount vectors all different, uniform and periodic. The register programs of the composed machine (Avel.tla, validated by TraceAvel.tla) are run as well; this check gives a verdict on the steps this property owns.', '7 C04'),
     'C05': ('model checking + trace validation (relation by postcondition)',
             'DivRel (q*y+r=x, |r|<|y|, sign rules) is model-checked to have exactly the C++ truncating solution at 8 bits; recorded (q,r) of div, / %, /= %= are accepted by postcondition; zero divisors are placed in every lane and must neither trap nor disturb other lanes; a directed search over millions of structured pairs (quotients next to exact multiples of full-width divisors) is screened natively and every flagged pair is judged by TLC.', '7 C05'),
     'C06': ('model checking + trace validation of lane facts',
-            'Bit-counting functions: operational byte forms model-checked against set-of-bits definitions for all 8/16-bit values; recorded lane and scalar-overload results judged by TLC.', '7 C06'),
+            'Bit-counting functions: operational byte forms model-checked against set-of-bits definitions for all 8/16-bit values; recorded lane and scalar-overload results judged by TLC. The register programs of the composed machine (Avel.tla, validated by TraceAvel.tla) are run as well; this check gives a verdict on the steps this property owns.', '7 C06'),
     'C07': ('model checking + trace validation of lane facts',
             'blend/keep/clear/set_bits, min/max/minmax/clamp, abs/neg_abs/negate, average, midpoint: model-checked against statements on unbounded integers at 8/16 bits; recorded lane and scalar results judged by TLC; blend/keep/clear/negate fed by computed masks in the composed machine (Avel.tla: TraceAvel.tla trace validation, Gen_Avel.tla behaviours replayed on the code).', '7 C07 and Part II II.1'),
     'C03': ('model checking + trace validation (facts and register programs)',
@@ -34,11 +34,11 @@ TABLE = {
     'C10': ('trace validation with correct rounding accepted by postcondition',
             'FP.tla: RoundsTo(mode, C, r) decides correct rounding through exact bignum comparisons (sum, product, quotient a/b via cmp(a, d*b), sqrt via cmp(a, d*d)); FP.tla itself is validated against an independent exact-rational oracle on labelled correct/corrupted facts (MC_FPSelf). Conformance: special-value/binade/halfway lattice squared x 4 rounding modes x float/double x every width, + random patterns, all forms; each lane result judged by TLC.', '7 C10'),
     'C11': ('trace validation by postcondition + environment facts',
-            'ceil/floor/trunc/round/nearbyint/rint judged by integer-neighbourhood comparisons on exact dyadics under each of the four modes; every driver call records the rounding control / FTZ / DAZ before and after (env facts: an AVEL call must leave them unchanged); the fenv family repeats every float operation with FTZ and/or DAZ set by the caller in all four modes, so a restore that drops those bits is seen; nearbyint/rint are also called with the x87 rounding control out of step with MXCSR (the result follows MXCSR, FEnv!CurrentMode).', '7 C11 and Part II'),
+            'ceil/floor/trunc/round/nearbyint/rint judged by integer-neighbourhood comparisons on exact dyadics under each of the four modes; every driver call records the rounding control / FTZ / DAZ before and after (env facts: an AVEL call must leave them unchanged); the fenv family repeats every float operation with FTZ and/or DAZ set by the caller in all four modes, so a restore that drops those bits is seen; nearbyint/rint are also called with the x87 rounding control out of step with MXCSR (the result follows MXCSR, FEnv!CurrentMode); the environment facts of the integer operation families are judged here too.', '7 C11 and Part II'),
     'C12': ('trace validation by postcondition',
-            'frexp/ldexp/scalbn/ilogb/logb/frac/fmax/fmin/fdim on exponent fields and exact dyadics (ldexp through RoundsTo with the exponent swept over the whole range incl. INT_MIN/INT_MAX).', '7 C12'),
+            'frexp/ldexp/scalbn/ilogb/logb/frac/fmax/fmin/fdim on exponent fields and exact dyadics (ldexp through RoundsTo with the exponent swept over the whole range incl. INT_MIN/INT_MAX). The register programs of the composed machine (Avel.tla, validated by TraceAvel.tla) are run as well; this check gives a verdict on the steps this property owns.', '7 C12'),
     'C13': ('trace validation of lane facts',
-            'Classification and quiet comparisons as pure field tests; platform FP_* constants are mapped to names by the driver; every lattice / random pattern judged by TLC.', '7 C13'),
+            'Classification and quiet comparisons as pure field tests; platform FP_* constants are mapped to names by the driver; every lattice / random pattern judged by TLC; classification predicates as mask producers in the float register programs. The register programs of the composed machine (Avel.tla, validated by TraceAvel.tla) are run as well; this check gives a verdict on the steps this property owns.', '7 C13'),
     'C14': ('trace validation of object histories',
             'Denom.tla / TraceDenom.tla: the specification keeps den[id] = divisor given at construction and judges every later div, / %, /= %=, value() against its own state with DivRel; all (n, d) at 8 bits, adversarial numerators per divisor above, carry-chain numerators for limb-wise multiply-high; a signal during construction or use is a rejected event; copy construction and copy assignment are events too (den[id] := den[from]): every object is copied, and assigned over an older object that held another divisor, then both are used.', '7 C14 and Part II'),
     'C15': ('trace validation of object histories',
@@ -46,7 +46,7 @@ TABLE = {
     'C16': ('model checking + trace validation of lane facts',
             'The scalar overloads are judged by the same lane semantics as the vector lanes (so scalar = lane follows through the specification), in every subset of the scalar feature macros (thorough) / a covering selection (quick); mixed-sign cmp_* model-checked against comparison of mathematical integers at 8 bits; literal-argument calls catch results that differ under constant folding.', '7 C16'),
     'C17': ('model checking + trace validation of lane facts',
-            'convert<V0>, converting constructors, mask conversions (all observers), width-1 conversions between element sizes (= static_cast on bytes), bit_cast; 8/16-bit values exhaustively.', '7 C17'),
+            'convert<V0>, converting constructors, mask conversions (all observers), width-1 conversions between element sizes (= static_cast on bytes), bit_cast; 8/16-bit values exhaustively. The register programs of the composed machine (Avel.tla, validated by TraceAvel.tla) are run as well; this check gives a verdict on the steps this property owns.', '7 C17'),
     'C18': ('model checking + trace validation of allocator histories',
             'MC_Alloc: the three implementations over a nondeterministic system heap, all placements, adversarial user writes (vacuity guard: an offset word inside the user range is caught). Conformance: seeded allocate/fill/deallocate histories on 22 (T, A) instantiations in 8 builds (C++11..20, SSE, clang, UBSan), system allocator calls observed by link-time interposition, validated by TraceAlloc.tla (alignment, containment, disjointness, exact frees, intact fill patterns, no leak); plus TLC -> code: the complete state graph of the abstract history machine Gen_Alloc.tla (6 sizes incl. 0, up to 3 live blocks) replayed as one mini-history per transition; plus one request above 4 GiB per instantiation.', '7 C18 and Part II II.1'),
     'C19': ('model checking + trace validation of compile/link probes',
